@@ -88,7 +88,8 @@ def skipE (bs : Bytes) : Except PErr Bytes :=
   | some r => .ok r
 
 /-- `PrimaryBlock.UnmarshalCbor` up to the CRC item: everything is tee'd into the CRC buffer from
-the array head on. Result: (array length, CRC type, unread input). Every error is wrapped by
+the array head on, incl. the checks added by the repairs of D5/D7 (array length vs. fragment flag, CRC
+type known, array length vs. CRC type). Result: (array length, CRC type, unread input). Every error is wrapped by
 `Bundle.UnmarshalCbor` ("PrimaryBlock failed"), so there is no `brk` here. -/
 def primaryPre (bs : Bytes) : Except PErr (Nat × Nat × Bytes) := do
   let (n, r) ← match decArray bs with
@@ -97,8 +98,13 @@ def primaryPre (bs : Bytes) : Except PErr (Nat × Nat × Bytes) := do
   if ¬ (8 ≤ n ∧ n ≤ 11) then .error .other else
   let (ver, r) ← uintE r
   if ver ≠ dtnVersion then .error .other else
-  let (_, r) ← uintE r          -- bundle control flags
+  let (bcf, r) ← uintE r        -- bundle control flags
+  -- the array length must agree with the fragment flag (bit 0)
+  if decide (n = 10 ∨ n = 11) ≠ (bcf % 2 == 1) then .error .other else
   let (t, r) ← uintE r          -- CRC type
+  -- `emptyCRC(t)` must know the type, and the CRC item is present iff the type is not 0
+  if 2 < t then .error .other else
+  if decide (n = 9 ∨ n = 11) ≠ (t != 0) then .error .other else
   let r ← skipE r               -- destination
   let r ← skipE r               -- source
   let r ← skipE r               -- report-to
@@ -139,6 +145,10 @@ def canonicalPre (bs : Bytes) : Except PErr (Nat × Nat × Bytes × Bytes) := do
   let (_, r) ← uintU r          -- block number
   let (_, r) ← uintU r          -- block control flags
   let (t, r) ← uintU r          -- CRC type
+  -- `emptyCRC(t)` must know the type, and the CRC item is present iff the type is not 0 (both errors
+  -- are ordinary errors, not the break flag)
+  if 2 < t then .error .other else
+  if decide (n = 6) ≠ (t != 0) then .error .other else
   let r ← match decBytes r with -- block-type specific data: always one byte string
     | .error _ => .error PErr.other
     | .ok (_, r) => .ok r
